@@ -116,6 +116,12 @@ pub trait Property: 'static {
         false
     }
     fn check(case: &Self::Case, ctx: &mut Ctx) -> Outcome;
+    /// CPU seconds one case may burn on its worker thread before the run reports it as a violation (`None`: never; a case that
+    /// merely does not come back is always reported as INCONCLUSIVE, exit 2). CPU time is a work budget, not a wall-clock
+    /// limit: it does not grow with the load of the machine. Only a property whose subject is termination sets it.
+    fn cpu_budget_secs() -> Option<u64> {
+        None
+    }
     /// Abbreviated literal rendering of a case for evidence samples.
     fn sample(case: &Self::Case) -> Value {
         abbreviate(&serde_json::to_value(case).unwrap_or(Value::Null))
@@ -288,6 +294,8 @@ struct Shared {
     violations: Mutex<Vec<Violation>>,
     // hang watchdog: per worker (start millis since t0, case json)
     current: Vec<Mutex<Option<(Instant, String)>>>,
+    // per worker: the CPU-time clock of the worker thread and its reading when the current case started
+    cpu: Vec<Mutex<Option<(libc::clockid_t, f64)>>>,
     total_cases: AtomicU64,
 }
 
@@ -371,9 +379,16 @@ fn worker<P: Property>(tier: Tier, seed: u64, w: usize, gw: usize, nworkers: usi
         if let Some((_, s)) = &*slot {
             crate::alloc::set_current_case(s, abort_path, abort_line);
         }
+        if P::cpu_budget_secs().is_some() {
+            let mut cid: libc::clockid_t = 0;
+            if unsafe { libc::pthread_getcpuclockid(libc::pthread_self(), &mut cid) } == 0 {
+                *shared.cpu[w].lock().unwrap() = cpu_now(cid).map(|t| (cid, t));
+            }
+        }
     };
     let clear_current = || {
         crate::alloc::clear_current_case();
+        *shared.cpu[w].lock().unwrap() = None;
         *shared.current[w].lock().unwrap() = None;
     };
 
@@ -494,6 +509,7 @@ pub fn run_property<P: Property>(tier: Tier, seed: u64) -> RunResult {
         stop: AtomicBool::new(false),
         violations: Mutex::new(vec![]),
         current: (0..nworkers).map(|_| Mutex::new(None)).collect(),
+        cpu: (0..nworkers).map(|_| Mutex::new(None)).collect(),
         total_cases: AtomicU64::new(0),
     });
 
@@ -503,6 +519,27 @@ pub fn run_property<P: Property>(tier: Tier, seed: u64) -> RunResult {
         let id = P::ID;
         std::thread::spawn(move || loop {
             std::thread::sleep(Duration::from_millis(500));
+            if let Some(budget) = P::cpu_budget_secs() {
+                for (w, slot) in shared.cpu.iter().enumerate() {
+                    let used = match &*slot.lock().unwrap() {
+                        Some((cid, t0)) => cpu_now(*cid).map(|t| t - t0),
+                        None => None,
+                    };
+                    if used.map(|u| u > budget as f64).unwrap_or(false) {
+                        let case = shared.current[w].lock().unwrap().as_ref().map(|(_, c)| c.clone()).unwrap_or_else(|| "null".into());
+                        let dir = verif_root().join("replays");
+                        let _ = std::fs::create_dir_all(&dir);
+                        let path = dir.join(format!("{id}-spin-w{w}.json"));
+                        let _ = std::fs::write(
+                            &path,
+                            format!("{{\"property\":\"{id}\",\"signature\":\"{id}:no-return:busy\",\"detail\":\"one case has used more than {budget} s of CPU time on its thread without returning\",\"case\":{case}}}"),
+                        );
+                        println!("  signature={id}:no-return:busy");
+                        println!("VIOLATION property={id} replay={}", path.display());
+                        std::process::exit(1);
+                    }
+                }
+            }
             for slot in &shared.current {
                 if let Some((start, case)) = &*slot.lock().unwrap() {
                     let limit = hang_limit();
@@ -685,6 +722,15 @@ fn run_sharded<P: Property>(tier: Tier, n: usize) -> Result<RunResult, i32> {
         return Err(worst);
     }
     Ok(merged)
+}
+
+fn cpu_now(cid: libc::clockid_t) -> Option<f64> {
+    let mut ts = libc::timespec { tv_sec: 0, tv_nsec: 0 };
+    if unsafe { libc::clock_gettime(cid, &mut ts) } == 0 {
+        Some(ts.tv_sec as f64 + ts.tv_nsec as f64 * 1e-9)
+    } else {
+        None
+    }
 }
 
 fn hang_limit() -> Duration {
